@@ -129,10 +129,16 @@ CHECKS["C14"] = dict(
     text="Counted obligations, each 'rejected iff the documented numeric rule is violated' for every integer: scalar widths "
          "per prelude type (the real static_requirements of prelude.emb are what is evaluated), enum field width vs "
          "maximum_bits, enum values vs maximum_bits/is_signed, maximum_bits range, is_signed inference, bits <= 64, "
-         "explicit size vs field size (named and anonymous bits), array element multiple of 8 bits.",
+         "explicit size vs field size (named and anonymous bits), array element multiple of 8 bits.  Reserved words: the name of "
+         "a field / type / enum value (17 name positions, nested and inline ones included) is a string of L unconstrained characters, "
+         "L = 1..longest reserved word + 1, through the real constraints.check_constraints: rejected iff the string is in "
+         "compiler/front_end/reserved_words (read by the check's own parser, united with the list printed in doc/grammar.md).",
     note="Numeric thresholds for every integer; byte-order presence with $default scoping, attribute placement/duplication/value "
          "tables and 'no byte-oriented members in bits' as finite-domain harnesses through the whole front end (and header "
-         "generation for the (cpp) attributes).  Outside: reserved words as names (a finite list lookup).",
+         "generation for the (cpp) attributes).  Reserved words: a dictionary lookup of the symbolic name forks over the "
+         "constants of equal length, z3 decides the equivalence per path for all strings of that length; precondition: the name differs "
+         "from the module's other names (duplicates are rejected earlier).  Outside: names of runtime parameters and abbreviations "
+         "(not named by the documentation), longer names.",
     design="DESIGN.md section 3 C14",
 )
 
